@@ -265,14 +265,14 @@ func paramMappings(params map[string]spec.Parameter) (map[string]map[string]stri
 		}
 
 		if val, ok := seenIDs[strings.ToLower(swag.ToGoName(p.Name))]; ok {
-			previous := val.(struct{ id, in string })
+			previous := val.(struct{ id, in, name string })
 			idMapping[p.In][p.Name] = swag.ToGoName(id)
-			// rewrite the previously found one
-			idMapping[previous.in][p.Name] = swag.ToGoName(previous.id)
+			// rewrite the previously found one (under its own name: it may be spelled differently)
+			idMapping[previous.in][previous.name] = swag.ToGoName(previous.id)
 		} else {
 			idMapping[p.In][p.Name] = swag.ToGoName(p.Name)
 		}
-		seenIDs[strings.ToLower(idMapping[p.In][p.Name])] = struct{ id, in string }{id: id, in: p.In}
+		seenIDs[strings.ToLower(idMapping[p.In][p.Name])] = struct{ id, in, name string }{id: id, in: p.In, name: p.Name}
 	}
 
 	// pick a deconflicted private name for timeout for this operation
